@@ -233,6 +233,54 @@ def rule_versions(ctx):
         ctx.check(R, "Display for VariableName/no-version", "version" not in t and "suffix" not in t, t[:120])
 
 
+# C17.14: selections from a hash-ordered iteration (outside `for` loops), reviewed.  Keyed by (module of the enclosing function,
+# iterator method), program-wide count per key - moving a site within its module changes nothing.
+HASH_SELECTION_LEDGER = {
+    ("intermediate_representation::expression_impl", "next"): (1, "phi propagation: `values.iter().next()` of a set whose length was tested to be 1 (C06.3) - one element, no choice"),
+    ("static_single_assignment::dominator_tree", "next"): (1, "compute_immediate_dominators: the candidate set has been reduced to the immediate dominator, which is unique; the element taken does not depend on the order"),
+}
+_SELECT_RE = re.compile(r"iterator::Iterator::(find|find_map|next|position|rposition|last|nth|min_by_key|max_by_key|min_by|max_by|take|skip|step_by|take_while|skip_while|zip|enumerate|reduce)$|DoubleEndedIterator::(next_back|rfind|nth_back)$")
+
+
+def rule_hash_selection(ctx, R="C17.14"):
+    ctx.rule(R, "no element is *chosen* from a hash-ordered collection: every call of an order-sensitive iterator method (next outside a `for`, find, find_map, position, last, nth, min/max_by(_key), take, skip, zip, enumerate, reduce ..) whose receiver iterates a HashMap / HashSet - directly or through adaptors - is a reviewed ledger entry (the collection holds one element there); what such a call returns otherwise differs from process to process")
+    idx = mirlib.index()
+    import collections
+
+    cnt = collections.Counter()
+    where = {}
+    n_hash_iters = 0
+    for fid, fn in idx.items():
+        if fn.get("gen") or fn["file"].startswith("program_structure_tests"):
+            continue
+        for _i, t in mirlib.calls_of(fn):
+            g = t.get("gargs") or []
+            if not g or not re.search(r"hash_map::|hash_set::|hash::map::|hash::set::", g[0]):
+                continue
+            d = t.get("decl") or ""
+            if d.endswith("Iterator::next"):
+                n_hash_iters += 1
+            m = _SELECT_RE.search(d)
+            if not m or t.get("exp"):
+                continue  # (the `next` of a `for` loop is an expansion: visiting everything is not choosing)
+            meth = m.group(1) or m.group(2)
+            if "::<impl " in fn["pretty"]:
+                mod = fn["pretty"].split("::<impl ", 1)[0]
+            else:
+                mod = fn["pretty"].rsplit("::", 1)[0] if "::" in fn["pretty"] else fn["pretty"]
+                mod = mod.rsplit("::", 1)[0] if re.search(r"::[A-Z]\w*$", mod) else mod  # Type::method -> module
+            k = (mod, meth)
+            cnt[k] += 1
+            where.setdefault(k, []).append("%s (%s:%s) on %s" % (fn["pretty"][-60:], fn["file"], t["line"], g[0][:70]))
+    ctx.floor(R, "iterations over hash collections seen in the type-checked program", n_hash_iters, 15)
+    ctx.table("selections from hash-ordered iterators", ["%dx %s / %s" % (v, k[0], k[1]) for k, v in sorted(cnt.items())])
+    for k, v in sorted(cnt.items()):
+        ent = HASH_SELECTION_LEDGER.get(k)
+        ok = ent is not None and v <= ent[0]
+        ctx.check(R, "hash-selection/%s/%s" % k, ok, ("%d site(s), reviewed %d: %s" % (v, ent[0], ent[1])) if ok else "an element is picked from a hash-ordered iteration without a reviewed reason (found %d, reviewed %d): %s" % (v, ent[0] if ent else 0, where[k][-2:]))
+    ctx.floor(R, "reviewed selection sites present", sum(1 for k in HASH_SELECTION_LEDGER if k in cnt), 2)
+
+
 def rule_first_wins(ctx):
     R = "C17.4"
     ctx.rule(R, "no report is selected first-wins: the condition of a report push never contains a set insertion (which keeps whichever element the hash order delivers first)")
@@ -324,6 +372,7 @@ def run(ctx):
     rule_cache(ctx)
     rule_first_wins(ctx)
     rule_every_file_merged(ctx)
+    rule_hash_selection(ctx)
     import c03
 
     import c14 as _c14
@@ -331,6 +380,7 @@ def run(ctx):
     ctx.include("C17.12", "the arguments of a phi do not depend on the order in which the incoming edges are visited: every edge contributes its argument, the unassigned one included (shared with C14.3)", _c14.rule_phis_and_locals, only=["ensure_phi_argument/"])
     ctx.include("C17.13", "each definition is analysed and its cached reports displayed once, whatever the order of the name maps; a writer's decision about a report depends on that report alone (shared with C03.1/C03.2)", c03.rule_drain, lambda c: c03.rule_exit_status(c, "C03.2"), only=["one-analysis-per-name", "lifted-at-most-once", "::filter/"])
     ctx.include("C17.6", "no finding is dropped by a de-duplication whose outcome depends on the order in which definitions, passes or files were processed: the runner and the writers never narrow a report collection (shared with C03.1)", c03.rule_drain, only=["no-narrowing", "appends-everything"])
+    ctx.include("C17.15", "which phi statements exist does not depend on the order in which the written variables of a block come out of their hash set: a frontier block is re-queued whenever *any* variable got a new phi there (shared with C14.2)", _c14.rule_phi_insertion)
     import c18
 
     ctx.include("C17.11", "whether a template is desugared does not depend on which templates the hash-ordered loop visited before it: anonymous components are resolved against the table handed to the desugaring, every template goes through both stages (shared with C18.2)", c18.rule_elimination, only=["remove_syntactic_sugar/templates/"])
